@@ -319,6 +319,69 @@ def long_check(case):
     return Res(v, o=(variant, ns > 65536), tr=1)
 
 
+# ------------------------------------------------------------------ (e3) the referencing options reach the referencing step through destripe
+def dopt_cases(tier, seed):
+    return [(tab, op, grouped) for tab in ("NP1", "NP2", "NPultra") for op in ("median", "average") for grouped in (False, True)]
+
+
+def dopt_check(case):
+    tab, op, grouped = case
+    h = _h(tab)
+    fs, n = 30000, 700
+    rng = np.random.default_rng([SEED[0] + 61, len(tab)])
+    x = rng.standard_normal((384, n)) * 30e-6 + 60e-6 * np.sin(np.arange(n) / 5.0)[None, :] + (rng.standard_normal((384, 1)) ** 3) * 20e-6 * np.cos(np.arange(n) / 9.0)[None, :]
+    coll = (np.arange(384) // 96) if grouped else None
+    kk = {"operator": op}
+    if grouped:
+        kk["collection"] = coll
+    v = []
+    for name, fn in (("destripe", lambda: voltage.destripe(x.copy(), fs, h=h, neuropixel_version=_version(tab), k_filter=False, k_kwargs=dict(kk), channel_labels=np.zeros(384))),
+                     ("destripe_lfp", None)):
+        if fn is None:
+            continue
+        out = fn()
+        groups = [np.arange(384)] if coll is None else [np.flatnonzero(coll == g) for g in np.unique(coll)]
+        for gi in groups:
+            stat = np.median(out[gi], axis=0) if op == "median" else np.mean(out[gi], axis=0)
+            other = np.mean(out[gi], axis=0) if op == "median" else np.median(out[gi], axis=0)
+            scale = np.sqrt(np.mean(out[gi] ** 2))
+            if np.max(np.abs(stat)) > 1e-9 * scale:
+                v.append(("destripe:referencing-operator", "%s %s(k_filter=False, k_kwargs=%r): the %s over the %s channels reaches %.3g after referencing (rms %.3g; the %s is %.3g)"
+                          % (tab, name, {k_: ("..." if k_ == "collection" else v_) for k_, v_ in kk.items()}, op, "group" if grouped else "384", float(np.max(np.abs(stat))), scale,
+                             "mean" if op == "median" else "median", float(np.max(np.abs(other))))))
+                break
+    return Res(v, o=(tab, op, grouped), tr=1)
+
+
+# ------------------------------------------------------------------ (e2) referencing on arrays longer than every internal block size
+def carlong_cases(tier, seed):
+    from mc import thresholds
+    sizes = thresholds.beyond(thresholds.mine([voltage], 4000, 140000), extra=(70001, 196610), cap=300000)
+    return [(ns,) for ns in sizes]
+
+
+def carlong_check(case):
+    ns = case[0]
+    rng = np.random.default_rng(ns)
+    x = rng.standard_normal((9, ns)) * np.arange(1, 10)[:, None] + 3.0
+    g = np.array([0, 1, 0, 1, 1, 0, 0, 1, 0])
+    v = []
+    ntr = 0
+    for op in ("median", "average"):
+        for coll in (None, g):
+            out = voltage.car(x.copy(), collection=None if coll is None else coll.copy(), operator=op)
+            ntr += 1
+            for grp in ([None] if coll is None else [0, 1]):
+                rows = out if grp is None else out[g == grp]
+                stat = np.median(rows, axis=0) if op == "median" else np.mean(rows, axis=0)
+                bad = np.flatnonzero(np.abs(stat) > 1e-9)
+                if out.shape != x.shape or bad.size:
+                    v.append(("car:%s:long-array" % op, "car(operator=%s%s) on %d samples: %d sample(s) keep a non-zero %s (first at %d)"
+                              % (op, "" if coll is None else ", collection", ns, bad.size, op, bad[0] if bad.size else -1)))
+                    break
+    return Res(v, o=ns, tr=ntr)
+
+
 # ------------------------------------------------------------------ (e) referencing, grouping, gain control
 def car_cases(tier, seed):
     return [list(a) for a in itertools.product(range(3), repeat=2)]
@@ -450,6 +513,8 @@ CHECK = {
         Clause("labels", "outside-brain rows are excluded from the spatial filter", cases=label_cases, check=label_check, setup=_setup),
         Clause("labels-anywhere", "outside-brain labels at arbitrary positions: every inside channel is still destriped", cases=_scatter_cases, check=scatter_check, setup=_setup),
         Clause("long-arrays", "arrays around and beyond 65536 samples: bursts at the start, middle and tail are attenuated", cases=long_cases, check=long_check, setup=_setup),
+        Clause("destripe-options", "destripe(k_filter=False) with operator median / average, with and without channel groups: zero median / mean per group", cases=dopt_cases, check=dopt_check, setup=_setup),
+        Clause("car-long", "referencing on arrays just beyond every size constant mined from ibldsp.voltage (zero median / mean at every sample)", cases=carlong_cases, check=carlong_check, setup=_setup),
         Clause("car", "referencing: zero median/mean per group for all groupings", cases=car_cases, check=car_check, setup=_setup),
         Clause("groups", "kfilt / fk with collections = each group alone with the same settings", cases=group_cases, check=group_check, setup=_setup),
         Clause("agc", "gain control: data x gain = input", cases=agc_cases, check=agc_check, setup=_setup),
